@@ -44,9 +44,8 @@ def _run(program, uid, cnt, owner, caller="ctxA"):
     return sorted(set(res), key=repr)
 
 
-def run(ctx):
-    program = ctx.program
-    ctx.rule("R12.1", "service_register/service_remove implement the reference-count + ownership transition table", floor=20)
+def refcount_table(ctx, program, rid):
+    """Transition table of service_register / service_remove on the finite model count x owner."""
     for cnt in (None, 0, 1, 2, 3):
         for owner in (None, "ctxA", "ctxB"):
             if cnt in (None, 0) and owner == "ctxB":
@@ -62,7 +61,7 @@ def run(ctx):
                 exp = [("return", base + 1, "ctxA", ("async_register",))]
                 alt = None
             ok = got == exp or (alt is not None and got == alt)
-            ctx.check(ok, "R12.1", REG, f"register: count={cnt} owner={owner}",
+            ctx.check(ok, rid, REG, f"register: count={cnt} owner={owner}",
                       msg=f"service_register with count={cnt}, owner={owner}, caller=ctxA yields {got}; specified: {exp} "
                       f"(a refused registration must not change the count, otherwise the real owner's removal never unregisters the service)",
                       key=f"register count={cnt} owner={owner}", node=program.func(REG), rel="function.py", sample={"result": repr(got)})
@@ -73,9 +72,16 @@ def run(ctx):
                 exp = [("return", cnt - 1, owner, ())]
             else:
                 exp = [("return", 0, None, ("async_remove",))]
-            ctx.check(got == exp, "R12.1", REM, f"remove: count={cnt} owner={owner}",
+            ctx.check(got == exp, rid, REM, f"remove: count={cnt} owner={owner}",
                       msg=f"service_remove with count={cnt}, owner={owner} yields {got}; specified: {exp}",
                       key=f"remove count={cnt} owner={owner}", node=program.func(REM), rel="function.py", sample={"result": repr(got)})
+
+
+
+def run(ctx):
+    program = ctx.program
+    ctx.rule("R12.1", "service_register/service_remove implement the reference-count + ownership transition table", floor=20)
+    refcount_table(ctx, program, "R12.1")
 
     ctx.rule("R12.2", "every registration site passes the global context name as owner, the removal site passes the same, and each registered name is recorded for removal", floor=4)
     sites = []
